@@ -174,6 +174,28 @@ def _current_value_table(ctx, rel, qual, fn, p):
         raise AnalysisError(f"{where}: abstract evaluation unsupported: {e}")
 
 
+def check_add_if_new_fallback(ctx, rel, qual, fn):
+    """R2b: the 'use the name itself' fallback of add_if_new is taken only for 'no such ref' (KeyError / IndexError from
+    follow()): any other failure to resolve the name (SymrefLoop: the ref exists, its chain is too deep or cyclic) must
+    propagate — the existence test sits inside the try, the fallback path has none."""
+    where = f"{rel}:{qual}"
+    for t in ast.walk(fn):
+        if not isinstance(t, ast.Try):
+            continue
+        if not any(call_attr(c) == "follow" for st in t.body for c in calls_in(st)):
+            continue
+        for h in t.handlers:
+            names = set()
+            if h.type is None:
+                names = {"<bare>"}
+            else:
+                names = {norm(e) for e in (h.type.elts if isinstance(h.type, ast.Tuple) else [h.type])}
+            swallows = not any(isinstance(r, ast.Raise) for r in ast.walk(h))
+            if swallows:
+                extra = sorted(names - {"KeyError", "IndexError"})
+                ctx.check("R2-add-if-new", where, not extra, f"the unresolved-name fallback is taken for {sorted(names)} only (no such ref)", construct=str(extra), message=f"add_if_new falls back to writing the name itself when follow() fails with {extra}: the existence test lives inside the try, so an existing ref whose symbolic chain cannot be resolved (too deep, or a cycle such as HEAD -> refs/heads/x -> HEAD) is overwritten and True is returned")
+
+
 def check_add_if_new(ctx, rel, qual, fn):
     where = f"{rel}:{qual}"
     g = build_cfg(fn)
@@ -218,6 +240,7 @@ def run(ctx):
             elif base == "add_if_new" and "." in q:
                 found += 1
                 check_add_if_new(ctx, rel, q, fn)
+                check_add_if_new_fallback(ctx, rel, q, fn)
     ctx.require(found >= 3, f"only {found} CAS methods found under breezy/git (hand-confirmed: 3 in TransportRefsContainer)")
     # ---- R3: results consumed at call sites ---------------------------------
     sites = 0
@@ -299,6 +322,10 @@ def run(ctx):
                     rd7 = _calling(g7, attr="get_packed_refs") or _calling(g7, name="read_packed_refs")
                     r7 = g7.reach([g7.entry], avoid=set(rd7), include_src=True)
                     w7 = g7.path([g7.entry], [g7.exit], avoid=set(rd7)) if g7.exit in r7 else None
+                    # ... and that read is a fresh one: the cache attribute is reset before it on every path
+                    inval7 = [n_.id for n_ in g7.nodes if n_.kind == "stmt" and isinstance(n_.ast, ast.Assign) and any(norm(t_) == packed for t_ in n_.ast.targets) and isinstance(n_.ast.value, ast.Constant) and n_.ast.value.value is None]
+                    fresh7 = bool(inval7) and bool(rd7) and g7.always_before(inval7, rd7)[0]
+                    ctx.check("R7-packed-rewrite-reads-state", where, fresh7, f"{q}: the cached view {packed} is dropped before packed-refs is read for the rewrite", message=f"{q} rewrites packed-refs from the cached view without re-reading the file first ({packed} is not reset before get_packed_refs()): refs another updater deleted or changed since this container first read packed-refs are written back with their old values — a deleted ref comes back (add_if_new is then refused), a changed ref silently reverts (set_if_equals against the stale value succeeds)")
                     ctx.check("R7-packed-rewrite-reads-state", where, bool(rd7) and g7.exit not in r7, f"{q}: every way out passes a (re)read of packed-refs", construct="exit without reading packed-refs", message=f"{q} can return before it has read packed-refs (e.g. when nothing is cached yet): a conditional delete that matched the loose value reports success while the packed entry stays, and the ref comes back with that stale value", witness=g7.show_path(w7) if w7 else None)
                     ctx.check("R6-packed-cache-follows-file", where, ok, f"{q}: what is written to packed-refs is the cached view {caches} (or the cache is replaced afterwards)", construct=f"write_packed_refs(…, {', '.join(handed)})", message=f"{q} writes packed-refs from {handed} while the cache {packed} that get_packed_refs() answers from is left as it was: the next conditional update compares with a value that is no longer in force (a removed ref still looks present, add_if_new refuses to create it, set_if_equals succeeds against the stale value)")
     n_all = 0
@@ -314,6 +341,8 @@ def run(ctx):
 
 _FIX_SET = "        if old_ref is not None:\n            orig_ref = self.read_loose_ref(realname)\n            if orig_ref is None:\n                orig_ref = self.get_packed_refs().get(realname, ZERO_SHA)\n            if orig_ref != old_ref:\n                return False\n"
 MUTANTS = [
+    Mutant("packed-refs rewritten from the cached view", TG, "        self._packed_refs = None\n        self.get_packed_refs()\n\n        if name not in self._packed_refs:\n            return\n", "        if name not in self.get_packed_refs():\n            return\n", expect="R7-packed-rewrite-reads-state"),
+    Mutant("add_if_new overwrites refs whose symref chain cannot be resolved", TG, "        except (KeyError, IndexError):\n            realname = name\n        self._check_refname(realname)\n        if realname == b\"HEAD\":", "        except (KeyError, IndexError, SymrefLoop):\n            realname = name\n        self._check_refname(realname)\n        if realname == b\"HEAD\":", expect="R2-add-if-new"),
     Mutant("packed removal skipped while nothing is cached", TG, "    def _remove_packed_ref(self, name):\n", "    def _remove_packed_ref(self, name):\n        if self._packed_refs is None:\n            return\n", expect="R7-packed-rewrite-reads-state"),
     Mutant("packed ref removed from the file but not from the cache", TG, "        del self._packed_refs[name]\n        if name in self._peeled_refs:\n            del self._peeled_refs[name]\n        with self.transport.open_write_stream(\"packed-refs\") as f:\n            write_packed_refs(f, self._packed_refs, self._peeled_refs)\n", "        packed_refs = {k: v for k, v in self._packed_refs.items() if k != name}\n        peeled_refs = {k: v for k, v in self._peeled_refs.items() if k != name}\n        with self.transport.open_write_stream(\"packed-refs\") as f:\n            write_packed_refs(f, packed_refs, peeled_refs)\n", expect="R6-packed-cache-follows-file"),
     Mutant("neutral: new packed-refs built on the side, cache replaced after the write", TG, "        del self._packed_refs[name]\n        if name in self._peeled_refs:\n            del self._peeled_refs[name]\n        with self.transport.open_write_stream(\"packed-refs\") as f:\n            write_packed_refs(f, self._packed_refs, self._peeled_refs)\n", "        packed_refs = {k: v for k, v in self._packed_refs.items() if k != name}\n        peeled_refs = {k: v for k, v in self._peeled_refs.items() if k != name}\n        with self.transport.open_write_stream(\"packed-refs\") as f:\n            write_packed_refs(f, packed_refs, peeled_refs)\n        self._packed_refs = packed_refs\n        self._peeled_refs = peeled_refs\n", neutral=True),
